@@ -58,7 +58,7 @@ impl Controller for StaticResourceController {
             if md.is_dir() {
                 let mut directory_index : String = "index.html".to_string();
 
-                let last_char = components.path.chars().last().unwrap();
+                let last_char = components.path.chars().last().unwrap_or('/');
                 if last_char != '/' {
                     let index : String = "index.html".to_string();
                     directory_index = format!("{}{}", os_specific_separator, index);
@@ -328,7 +328,7 @@ impl StaticResourceController {
 
                 let mut directory_index : String = "index.html".to_string();
 
-                let last_char = components.path.chars().last().unwrap();
+                let last_char = components.path.chars().last().unwrap_or('/');
                 if last_char != '/' {
                     let index : String = "index.html".to_string();
                     directory_index = format!("{}{}", os_specific_separator, index);
@@ -363,7 +363,7 @@ impl StaticResourceController {
 
                     let mut directory_index : String = "index.html".to_string();
 
-                    let last_char = components.path.chars().last().unwrap();
+                    let last_char = components.path.chars().last().unwrap_or('/');
                     if last_char != '/' {
                         let index : String = "index.html".to_string();
                         directory_index = format!("{}{}", os_specific_separator, index);
